@@ -167,21 +167,36 @@ def r_listpair(E):
     return res
 
 
+def _shadow_name(fn):
+    """the local handed to ModelingUpdate as the new content: ModelingUpdate([[<old>, <shadow>]])"""
+    for cl in _calls(fn):
+        if isinstance(cl.func, ast.Name) and cl.func.id == "ModelingUpdate" and cl.args and isinstance(cl.args[0], ast.List) \
+                and cl.args[0].elts and isinstance(cl.args[0].elts[0], ast.List) and len(cl.args[0].elts[0].elts) == 2:
+            x = cl.args[0].elts[0].elts[1]
+            if isinstance(x, ast.Name):
+                return x.id
+    return "copied_list"
+
+
 def _replay(fn):
-    """(operation replayed on the shadow copy, operation applied to the real list) as normalised texts"""
+    """(operation replayed on the shadow copy, operation applied to the real list) as normalised texts; arguments are
+    expanded through single-assignment locals so that `i = self.index(v); super().pop(i)` reads `super().pop(self.index(v))`"""
+    from ..astutil import fully_expanded
+    sh = _shadow_name(fn)
+    A = lambda a: norm(fully_expanded(a, fn))
     shadow = real = None
     for n in ast.walk(fn):
-        if isinstance(n, ast.Call) and isinstance(n.func, ast.Attribute) and norm(n.func.value) == "copied_list":
-            shadow = (n.func.attr, [norm(a) for a in n.args])
-        if isinstance(n, ast.Assign) and isinstance(n.targets[0], ast.Subscript) and norm(n.targets[0].value) == "copied_list":
-            shadow = ("__setitem__", [norm(n.targets[0].slice), norm(n.value)])
-        if isinstance(n, ast.Delete) and isinstance(n.targets[0], ast.Subscript) and norm(n.targets[0].value) == "copied_list":
-            shadow = ("__delitem__", [norm(n.targets[0].slice)])
-        if isinstance(n, ast.AugAssign) and norm(n.target) == "copied_list":
-            shadow = ({ast.Mult: "__imul__", ast.Add: "__iadd__"}.get(type(n.op), "?"), [norm(n.value)])
+        if isinstance(n, ast.Call) and isinstance(n.func, ast.Attribute) and norm(n.func.value) == sh:
+            shadow = (n.func.attr, [A(a) for a in n.args])
+        if isinstance(n, ast.Assign) and isinstance(n.targets[0], ast.Subscript) and norm(n.targets[0].value) == sh:
+            shadow = ("__setitem__", [A(n.targets[0].slice), A(n.value)])
+        if isinstance(n, ast.Delete) and isinstance(n.targets[0], ast.Subscript) and norm(n.targets[0].value) == sh:
+            shadow = ("__delitem__", [A(n.targets[0].slice)])
+        if isinstance(n, ast.AugAssign) and norm(n.target) == sh:
+            shadow = ({ast.Mult: "__imul__", ast.Add: "__iadd__"}.get(type(n.op), "?"), [A(n.value)])
         if isinstance(n, ast.Call) and isinstance(n.func, ast.Attribute) and norm(n.func.value) == "super()" \
                 and n.func.attr != "__init__":
-            real = (n.func.attr, [norm(a) for a in n.args])
+            real = (n.func.attr, [A(a) for a in n.args])
     # idiom: super().pop(self.index(x)) removes the first element equal to x, i.e. list.remove(x), and hands it back
     if real and real[0] == "pop" and len(real[1]) == 1 and real[1][0].startswith("self.index(") and real[1][0].endswith(")"):
         real = ("remove", [real[1][0][len("self.index("):-1]])
@@ -223,9 +238,11 @@ def r_listsib(E):
                 ok = False
             else:
                 sargs = [a for a in shadow[1]]
-                rargs = ["value" if a == "value_to_set" else a for a in real[1]]
+                # the real list stores the link wrapper of the value the shadow copy receives
+                W0 = "ContextualModelingObjectAttribute("
+                rargs = [a[len(W0):-1] if a.startswith(W0) and a.endswith(")") else a for a in real[1]]
                 ok = shadow[0] == real[0] == m and sargs == rargs
-        if ok and "copied_list" not in new_arg and m != "clear":
+        if ok and _shadow_name(fn) not in new_arg and m != "clear":
             ok = False
         if not ok:
             res.findings.append(Finding(
